@@ -11,7 +11,7 @@ use crate::engine::{replay_from_file, show_bytes, CheckResult, Ctx, Failure, Obs
 use crate::fail;
 use crate::gen::{dimacs_doc_strategy, render_dimacs, btor_doc_strategy, render_btor};
 use crate::inputs::{input_strategy, Input};
-use crate::source::{feed_strategy, Ctor, Feed, Schedule};
+use crate::source::{Ctor, Feed, Schedule};
 
 pub fn def() -> PropDef {
     PropDef {
@@ -49,6 +49,7 @@ fn one_shot_feed(len: usize) -> Feed {
         sched: Schedule::whole(),
         chunk: if len >= (16 << 10) { Some(len + 1) } else { None },
         ctor: Ctor::FromRead,
+        late_chunk: false,
     }
 }
 
@@ -191,7 +192,7 @@ pub fn large_case_strategy() -> impl Strategy<Value = Case> {
     });
     (
         prop_oneof![2 => cnf, 1 => btor],
-        feed_strategy(),
+        crate::source::parser_feed_strategy(),
         prop_oneof![Just(None), Just(Some(4096usize)), Just(Some(1000usize))],
     )
         .prop_map(|(input, mut feed, chunk)| {
@@ -202,7 +203,7 @@ pub fn large_case_strategy() -> impl Strategy<Value = Case> {
 
 fn run(ctx: &Ctx) {
     let n = ctx.share(ctx.tier.pick(1_200_000, 40_000_000));
-    let strat = (input_strategy(10, true), feed_strategy()).prop_map(|(input, feed)| Case { input, feed });
+    let strat = (input_strategy(10, true), crate::source::parser_feed_strategy()).prop_map(|(input, feed)| Case { input, feed });
     ctx.run_cases("differential", n, strat, check);
     let n = ctx.share(ctx.tier.pick(1_600, 40_000));
     ctx.run_cases("differential-large", n, large_case_strategy(), check);
